@@ -15,6 +15,8 @@ def alphabet(m):
                 evs.append(('submit', p, a, q))
     # orders carrying a user-chosen id that is reused from one submission to the next
     evs += [('submit_labelled', '1', 'A', 2), ('submit_labelled', '2', 'A', -3)]
+    # orders created earlier than they are submitted (created_dt = the broker's start)
+    evs += [('submit_backdated', '1', 'A', 2), ('submit_backdated', '1', 'A', -3)]
     evs += [('tick', j) for j in range(m.clock, len(bm.INSTANTS))]
     evs += [('quotes', 0), ('quotes', 1), ('quotes', 5)]      # 5: B quoted around one cent (orders worth < 0.5)
     return evs
